@@ -67,7 +67,7 @@ def main():
         res["demo_with_change_exit"] = code_m
         res["demo_without_change_exit"] = code_c
         res["demo_output_with_change"] = out_m.strip().splitlines()[-3:]
-        env = dict(os.environ, PLOTINK_REPO=mutant)
+        env = dict(os.environ, PLOTINK_REPO=mutant, VERIF_REPLAY_DIR=os.path.join(mutant, "replays"))
         res["checks"] = {}
         for prop in [args.prop] + [p for p in args.also.split(",") if p]:
             code, out = sh([os.path.join(ROOT, "check"), prop, "--tier", args.tier], env=env)
